@@ -196,7 +196,17 @@ def free_port():
     return p
 
 def server_session(requests, lt_options):
-    """start one server, send the requests in order; returns [(response, [argv of every proofreader call])]"""
+    """start one server, send the requests in order; returns [(response, [argv of every proofreader call])].
+    A connection-level failure (the port taken by a concurrent session between choosing and binding it, a start slower than
+    the waiting loop on a loaded machine) says nothing about the shell: the whole session is run again, up to three times."""
+    out = []
+    for attempt in range(3):
+        out = server_session_once(requests, lt_options)
+        if not any(rep.startswith('ERROR ') and ('onnection' in rep or 'timed out' in rep or 'refused' in rep) for rep, _ in out):
+            break
+    return out
+
+def server_session_once(requests, lt_options):
     import tempfile, shutil, time, urllib.request, urllib.parse
     d = tempfile.mkdtemp(prefix='yvs_')
     spec = os.path.join(d, 'spec.json')
